@@ -142,6 +142,12 @@ def build(job):
             gts.append(t.prod("pair", oname, lambda: opt.pairing(t.R(q1), t.R(z1)), a=q1, b=z1, gt=True))
         z2 = t.prod("g2", oname, lambda: opt.Z2, n=0)
         gts.append(t.prod("pair", oname, lambda: opt.pairing(t.R(z2), t.R(p1)), a=z2, b=p1, gt=True))
+        # reference module: the same point held in two distinct objects, added (doubling reached through add), paired
+        r5a = t.prod("g1", rname, lambda: ref.multiply(ref.G1, 5), n=5)
+        r5b = t.prod("g1", rname, lambda: ref.add(ref.multiply(ref.G1, 2), ref.multiply(ref.G1, 3)), n=5)
+        rd = t.prod("add", rname, lambda: ref.add(t.R(r5a), t.R(r5b)), a=r5a, b=r5b)
+        rq1 = t.prod("g2", rname, lambda: ref.G2, n=1)
+        gts.append(t.prod("pair", rname, lambda: ref.pairing(t.R(rq1), t.R(rd)), a=rq1, b=rd, gt=True))
         zr1 = t.prod("g1", rname, lambda: ref.Z1, n=0)
         qr1 = t.prod("g2", rname, lambda: ref.G2, n=1)
         gts.append(t.prod("pair", rname, lambda: ref.pairing(t.R(qr1), t.R(zr1)), a=qr1, b=zr1, gt=True))
